@@ -82,17 +82,24 @@ theorem arrive_inv {s : State} {i : Nat} (h : MidN s i) (hi : i < s.threads.leng
       intro pc e
       simp only [pcOf_setThread, hi, and_self, if_true] at e
       cases e; split <;> simp [holds, inStop]
-    · split
-      · next rest _ _ =>
-        have h1 := h.setThread { t with pc := Pc.saDebStarted, script := rest }
-        refine MidN.close_plain (i := i) ?_ ?_
-        · exact h1.append { kind := .deb, pc := .begin } rfl (by simpa using hi) rfl rfl rfl rfl rfl rfl rfl rfl
-        · intro pc e
-          rw [pcOf_append { kind := .deb, pc := .begin } rfl] at e
-          simp only [setThread_threads, List.length_set, hi, if_true, pcOf_setThread, and_self] at e
-          cases e; simp [holds, inStop]
-      · refine (h.setThread _).close_plain ?_
-        pc_plain hi
+    · refine (h.setThread _).close_plain ?_
+      pc_plain hi
+
+/-- `start()` from the acquisition of `_stopping_lock` -/
+theorem startBody_inv {s : State} {i : Nat} (h : MidN s i) (hi : i < s.threads.length) : Inv (startBody s i) := by
+  unfold startBody
+  split
+  · exact arrive_inv (h.log _ rfl rfl) (by simpa using hi)
+  · split
+    · have h1 := h.setPc Pc.saDebStarted
+      refine MidN.close_plain (i := i) ?_ ?_
+      · exact h1.append { kind := .deb, pc := .begin } rfl (by simpa using hi) rfl rfl rfl rfl rfl rfl rfl rfl
+      · intro pc e
+        rw [pcOf_append { kind := .deb, pc := .begin } rfl] at e
+        simp only [setPc_length, hi, if_true, pcOf_setPc, and_self] at e
+        cases e; simp [holds, inStop]
+    · refine (h.setPc _).close_plain ?_
+      pc_plain hi
 
 theorem debHead_inv {s : State} {i : Nat} (h : MidN s i) (hi : i < s.threads.length) : Inv (debHead s i) := by
   unfold debHead
@@ -457,6 +464,7 @@ theorem stepT_inv {s : State} {i : Nat} {t : Thread} (h : Inv s) (ht : s.threads
     · refine (hn.setPc _).close_plain ?_; pc_plain hi
     · exact watcherLoop_inv _ hn hi
   · next hb => exact arrive_inv (h.midN i (notOwner (by simp [hb, holds]))) hi
+  · next hb => exact startBody_inv (h.midN i (notOwner (by simp [hb, holds]))) hi
   · next hb =>
     refine ((h.midN i (notOwner (by simp [hb, holds]))).setPc _).close_plain ?_; pc_plain hi
   · -- saRAcq
